@@ -2,7 +2,7 @@ import QtyModel.Ops
 import QtyModel.Rate
 import QtyModel.Generated.Algos
 /-
-  Tie between code and model for the ALGORITHMS (which trait method the operators of a quantity type WITHOUT reference unit, and of a single-unit type, forward to).
+  Tie between code and model for the ALGORITHMS (which trait method `+` and `-` of a quantity type WITHOUT reference unit, and of a single-unit type, forward to).
 
   `Generated/Algos.lean` is re-emitted from the Rust source on every run
   (tools/translate_algos.py).  Every theorem below states that the re-emitted definition IS the
@@ -16,18 +16,13 @@ set_option linter.unusedSectionVars false
 variable {A U V W : Type} [DecidableEq U] [DecidableEq V] [DecidableEq W]
 variable (R : Arith A) (T : QT A U)
 
-theorem noRef_eq (a b : Q A U) : Kind.noRef.eq R T a b = nrEq R a b := rfl
-theorem noRef_partial_cmp (a b : Q A U) : Kind.noRef.partial_cmp R T a b = nrPcmp R a b := rfl
 theorem noRef_add (a b : Q A U) : Kind.noRef.add R T a b = nrAdd R a b := rfl
 theorem noRef_sub (a b : Q A U) : Kind.noRef.sub R T a b = nrSub R a b := rfl
-theorem noRef_div (a b : Q A U) : Kind.noRef.div R T a b = nrDiv R a b := rfl
-
 /-- single-unit types: no unit check, no comparison operators at all (the translator checked
 that the template has no `PartialEq` / `PartialOrd` impl) -/
 theorem single_add (a b : Q A U) :
     Kind.single.add R T a b = (do return ⟨← R.add a.amount b.amount, a.unit⟩) := rfl
 theorem single_sub (a b : Q A U) :
     Kind.single.sub R T a b = (do return ⟨← R.sub a.amount b.amount, a.unit⟩) := rfl
-theorem single_div (a b : Q A U) : Kind.single.div R T a b = R.div a.amount b.amount := rfl
 
 end Qty.AlgoTie
